@@ -1,6 +1,7 @@
 // H-dyn driver: reads scripts from stdin, runs each in a forked child, prints canonical output.
 #include "hdyn.hpp"
 
+#include <csignal>
 #include <iostream>
 #include <sys/wait.h>
 #include <unistd.h>
@@ -8,6 +9,7 @@
 namespace verif {
 
 std::string g_out;
+std::string g_abort_note;
 type_id g_obj_static_id = 0;
 type_id g_id_table[kIdFns];
 std::vector<Ran> g_ran;
@@ -111,7 +113,19 @@ static void flush_out(int fd) {
     g_out.clear();
 }
 
+static int g_fd = 1;
+static void on_abort(int) {
+    // async-signal-safe enough for a dying test process: write what is pending, then die by SIGABRT
+    if (!g_abort_note.empty()) {
+        (void)!::write(g_fd, g_abort_note.data(), g_abort_note.size());
+    }
+    std::signal(SIGABRT, SIG_DFL);
+    std::raise(SIGABRT);
+}
+
 static void run_script(const std::vector<std::string>& lines, int fd) {
+    g_fd = fd;
+    std::signal(SIGABRT, on_abort);
     EngineBase* cur = nullptr;
     std::map<std::string, bool> seen;
     for (auto& line : lines) {
